@@ -107,7 +107,7 @@ def run_program(label, prog, mode="uf", keep_smt=0, timeout_ms=None, filter_name
             if key in seen:
                 continue
             seen.add(key)
-            solve.discharge(ob, timeout_ms)
+            solve.discharge(ob, timeout_ms, hard=(mode == "real"))
             r = Result(ob, label)
             if kept < keep_smt and ob.backend in ("z3", "cvc5"):
                 try:
